@@ -197,6 +197,133 @@ def location_rules(rep, T, rule="R3", which=("parse_location_entries", "decode_p
     return nconf
 
 
+def walk_terms(t, out):
+    if isinstance(t, (Sym,)):
+        out[repr(t)] = t
+    elif isinstance(t, Op):
+        if t.op == "attr":
+            out[repr(t)] = t
+        for a in t.args:
+            walk_terms(a, out)
+    elif isinstance(t, Guard):
+        walk_terms(t.cond, out); walk_terms(t.a, out); walk_terms(t.b, out)
+    elif isinstance(t, Lin):
+        for a in t.terms:
+            walk_terms(a, out)
+    elif isinstance(t, (tuple, list)):
+        for a in t:
+            walk_terms(a, out)
+    return out
+
+
+def colines_ranges_rule(rep, T, rule):
+    """co_lines() of 3.11+: the ranges built from the decoded entries give every code unit the line of its entry.
+    One-iteration summary of parse_linetable's range loop; the extracted yield condition, yielded triple and loop-carried
+    updates are evaluated over the finite abstraction (line delta zero / non-zero) x (entry has a line) x (current range has a line)."""
+    from ..sve import eval_term
+    F = T.F
+    c311 = F.modules.get("xdis.codetype.code311")
+    f = c311.ns.get("parse_linetable") if c311 is not None else None
+    if not isinstance(f, FuncRef):
+        raise AnalysisError("anchor vanished: xdis.codetype.code311.parse_linetable")
+    rep.analysed(f.qualname)
+    FQ = f.qualname
+    sp = Spec(F, opaque_funcs={"decode_linetable_entry", "_go_to_next_code_byte"})
+    sp.eager_generators = True
+    first = Sym("first_lineno", "int")
+    sp.run(f, [Sym("linetable", "bytes"), first])
+    loops = [e.args[3] for k, e in flatten_effects(sp.effects) if k in ("loop", "loop-begin")]
+    merge = [ls for ls in loops if any(x.kind == "yield" for x in ls.effects)]
+    tail = [e for e in sp.effects if e.kind == "yield"]
+    if len(merge) != 1 or len(tail) != 1:
+        rep.ob(rule, FQ, "co_lines:shape", False, expected="one loop over the decoded entries that yields ranges, and one final yield", derived=[len(merge), len(tail)],
+               msg="the range construction of co_lines() is not the recognised accumulate-and-emit loop")
+        return
+    ls = merge[0]
+    names = {}
+    for n, v in ls.head.items() if hasattr(ls, "head") and ls.head else []:
+        pass
+    lv = [(g, l) for g, l in leaves(ls.out) if isinstance(l, (Fall, Cont))]
+    ys = [x for x in ls.effects if x.kind == "yield"]
+    terms = {}
+    for g, l in lv:
+        walk_terms(list(g), terms)
+        walk_terms([v for k_, v in l.env.items() if isinstance(k_, str)], terms)
+    for y in ys:
+        walk_terms(list(y.guards) + [y.args[0]], terms)
+    elem_attr = {}
+    carried = {}
+    for r_, t in terms.items():
+        if isinstance(t, Op) and t.op == "attr" and isinstance(t.args[0], Sym) and t.args[0].name == ls.tag + ":elem":
+            elem_attr[t.args[1]] = r_
+        elif isinstance(t, Sym) and t.name.startswith(ls.tag + ":") and not t.name.endswith(":elem"):
+            carried[t.name.split(":", 1)[1]] = r_
+    # identify the roles of the loop-carried variables from the initial values
+    pre = ls.pre
+    role = {}
+    for n, v in pre.items():
+        if not isinstance(n, str) or n not in carried:
+            continue
+        sv = show(v)
+        if sv == "0":
+            role["start"] = n
+        elif sv.endswith("'code_delta')"):
+            role["end"] = n
+        elif "'line_delta')" in sv and "first_lineno" in sv:
+            role["line"] = n
+        elif sv.endswith("'no_line_flag')"):
+            role["flag"] = n
+    need_attrs = {"line_delta", "no_line_flag", "code_delta"}
+    ok_shape = set(role) == {"start", "end", "line", "flag"} and need_attrs <= set(elem_attr)
+    rep.ob(rule, FQ, "co_lines:initial-range", ok_shape, expected="start=0, end=first.code_delta, line=first_lineno+first.line_delta, flag=first.no_line_flag",
+           derived={n: show(v)[:60] for n, v in pre.items() if isinstance(n, str) and n in carried},
+           msg="the first range of co_lines() does not start at 0 with the first entry's length, line and no-line flag")
+    if not ok_shape:
+        return
+    bad = []
+    n_eval = 0
+    for d in (-2, 0, 3):
+        for fe in (False, True):
+            if fe and d != 0:
+                continue
+            for fl in (False, True):
+                val = {elem_attr["line_delta"]: d, elem_attr["no_line_flag"]: fe, elem_attr["code_delta"]: 6,
+                       carried[role["start"]]: 10, carried[role["end"]]: 14, carried[role["line"]]: 100, carried[role["flag"]]: fl}
+                n_eval += 1
+                cur_line = None if fl else 100
+                ent_line = None if fe else 100 + d
+                try:
+                    emitted = [eval_term(y.args[0], val) for y in ys if all(eval_term(c, val) for c in y.guards if not (isinstance(c, Op) and c.op == "in-loop") and not isinstance(c, Sym))]
+                    post = None
+                    for g, l in lv:
+                        if all(eval_term(c, val) for c in g):
+                            post = {r: eval_term(l.env[role[r]], val) for r in role}
+                            break
+                except Exception as ex:
+                    bad.append("not evaluable: %s" % ex)
+                    break
+                cfg = "delta=%d entry-no-line=%s range-no-line=%s" % (d, fe, fl)
+                if post is None:
+                    bad.append("%s: no continuing path" % cfg)
+                    continue
+                if ent_line != cur_line and emitted != [(10, 14, cur_line)]:
+                    bad.append("%s: the current range must be emitted as (start, end, %r) before a unit with line %r is added; emitted %r" % (cfg, cur_line, ent_line, emitted))
+                elif emitted not in ([], [(10, 14, cur_line)]):
+                    bad.append("%s: emitted %r" % (cfg, emitted))
+                want_start = 14 if emitted else 10
+                eff_line = None if post["flag"] else post["line"]
+                if post["start"] != want_start or post["end"] != 20 or eff_line != ent_line or post["line"] != 100 + d:
+                    bad.append("%s: after the entry the open range is (%r, %r, line %r, running line %r); expected (%d, 20, line %r, running line %d)" % (
+                        cfg, post["start"], post["end"], eff_line, post["line"], want_start, ent_line, 100 + d))
+    rep.ob(rule, FQ, "co_lines:range-per-entry", not bad, expected="a unit whose line differs from the open range closes it; the open range then carries the entry's line; end advances by the entry's length",
+           derived=bad[:4] or "%d abstract configurations agree" % n_eval,
+           msg="co_lines() attributes some code units to the wrong line: %s" % "; ".join(bad[:2]))
+    ty = tail[0].args[0]
+    want_tail = "(after-%s:%s, after-%s:%s, (after-%s:%s ? None : after-%s:%s))" % (ls.tag, role["start"], ls.tag, role["end"], ls.tag, role["flag"], ls.tag, role["line"])
+    rep.ob(rule, FQ, "co_lines:final-range", show(ty) == want_tail, expected=want_tail, derived=show(ty),
+           msg="the last open range is not emitted as (start, end, None if no-line else line)")
+
+
 def run(rep, tier):
     rep.explanation = ("specialisation of the 3.11+ table decoders with the entry's first byte and the varint byte-lengths as the enumerated configuration and all "
                        "payload bits symbolic (bit-field normal forms); the resulting straight-line terms are compared with terms built from Objects/locations.md "
@@ -206,6 +333,8 @@ def run(rep, tier):
     rep.rule("R3", "location entries: length = (b & 7) + 1 code units; code = (b >> 3) & 15; short / one-line / no-column / long / none forms per locations.md; "
                    "varints little-endian 6-bit with continuation 64; signed = zig-zag; long form columns are stored + 1")
     rep.rule("R4", "the listing prints end - 2 (inclusive end) for each exception entry")
+    rep.rule("R5", "co_lines(): a code unit whose line (or no-line status) differs from the open range closes that range; every range is emitted as "
+                   "(start, end, None if no-line else line); the running line accumulates every delta")
     T = tables()
     F = T.F
     bc = F.modules["xdis.bytecode"]
@@ -290,6 +419,7 @@ def run(rep, tier):
     txt = " ".join(show(e.args[2]) for k, e in flatten_effects(sp.effects) if k == "mutate")
     rep.ob("R4", fet.qualname, "prints-end-minus-2", "'end') + -2" in txt or "-2 + attr(" in txt, expected="entry.end - 2", derived=txt[:200])
     nconf = location_rules(rep, T)
+    colines_ranges_rule(rep, T, "R5")
     # wiring: which decoder the public methods use
     C = c311.ns.get("Code311")
     for meth, target in (("co_positions", "parse_location_entries"), ("co_lines", "parse_linetable")):
@@ -298,4 +428,4 @@ def run(rep, tier):
         rep.ob("R3", "xdis.codetype.code311.Code311.%s" % meth, "uses:%s" % target, ("%s(self.co_linetable, self.co_firstlineno)" % target) in src,
                expected="%s(self.co_linetable, self.co_firstlineno)" % target, derived=src[-80:])
     rep.assumptions = ["Objects/locations.md and Objects/exception_handling_notes.txt of CPython 3.11-3.13 as transcribed in DESIGN.md Appendix A.5",
-                       "the merging policy of co_lines() ranges and the per-code-unit expansion of co_positions() are not decided (entry decoding only)"]
+                       "the per-code-unit expansion of co_positions() is not decided (entry decoding only); co_lines() ranges may be split more finely than CPython's (line per code unit is what is decided)"]
